@@ -30,6 +30,6 @@ def isExperimentalUsesIncludes : Bool := true
 def isExperimentalChecksSubrepo : Bool := true
 def experimentalLabelName : String := "..."
 def sandboxWhitelistMethod : String := "Matches"
-def sandboxExpSlash : Bool := false
-def sandboxLits : List String := ["%v is not whitelisted to opt out of the sandbox", "_please"]
+def sandboxExpSlash : Bool := true
+def sandboxLits : List String := ["", "%v is not whitelisted to opt out of the sandbox", "/", "_please"]
 end PlzVerif.Generated.C20
